@@ -632,7 +632,104 @@ def shard_sweep(case):
     return part
 
 
+# --------------------------------------------------------------------------------------------------------------
+# histories: ONE DCOP object, changed through its public API and re-built after every step
+# --------------------------------------------------------------------------------------------------------------
+H_N = 4
+H_KNAMES = ["k0", "k1", "k2", "k3"]
+H_SCOPES = list(itertools.combinations(range(H_N), 2)) + [(0, 1, 2), (1, 2, 3)]
+H_INIT = {"k0": (0, 1), "k1": (1, 2), "k2": (2, 3)}
+
+
+def hist_ops():
+    return [("set", k, s) for k in H_KNAMES for s in H_SCOPES] + [("del", k) for k in H_KNAMES]
+
+
+def hist_check(dcop, model, names, hist, part):
+    """build_computation_graph(dcop) on the current object, judged against the current definition (model: kname -> scope)."""
+    from pydcop.computations_graph import pseudotree
+
+    knames = sorted(model)
+    scopes = [model[k] for k in knames]
+    derived = dict(zip(knames, constraint_names(scopes)))
+    case = {"history": [list(o) for o in hist]}
+    try:
+        obs = observe(pseudotree.build_computation_graph(dcop))
+    except Exception as e:  # noqa
+        part.violation("history|" + crash_key(e), f"one DCOP object, history {hist}: build_computation_graph raised {type(e).__name__}: {str(e)[:100]}", case)
+        return False
+    for nm in obs["cons"]:
+        obs["cons"][nm] = [derived.get(c, "<" + c + ">") for c in obs["cons"][nm]]
+    found = validate(names, scopes, obs)
+    for key, msg in found:
+        step = "after-" + hist[-1][0] if hist else "initial"
+        part.violation(f"history|{key}|{step}", f"one DCOP object, history {hist} (graph re-built after every step), current constraints {dict(zip(knames, scopes))}: {msg}", case)
+    part.count("evaluations")
+    part.count("history_builds")
+    return not found
+
+
+def hist_run(hist, part):
+    from pydcop.dcop.dcop import DCOP
+    from pydcop.dcop.relations import NAryMatrixRelation
+
+    names = NAMES[:H_N]
+    variables = _variables(names)
+    dcop = DCOP("c17h")
+    for v in variables:
+        dcop.add_variable(v)
+    model = {}
+
+    def put(k, sc):
+        dcop.add_constraint(NAryMatrixRelation([variables[i] for i in sc], name=k))
+        model[k] = tuple(sc)
+
+    for k, sc in H_INIT.items():
+        put(k, sc)
+    ok = hist_check(dcop, model, names, [], part)
+    for i, op in enumerate(hist):
+        if op[0] == "set":
+            put(op[1], op[2])
+        else:
+            del dcop.constraints[op[1]]
+            del model[op[1]]
+        ok = hist_check(dcop, model, names, hist[:i + 1], part) and ok
+    return ok, model
+
+
+def shard_history(args):
+    depth, idx = args
+    part = Part()
+    ops = hist_ops()
+    count = [0]
+
+    def rec(hist, model):
+        if len(hist) == depth:
+            return
+        for op in ops:
+            if op[0] == "del" and op[1] not in model:
+                continue
+            if op[0] == "set" and model.get(op[1]) == tuple(op[2]):
+                continue
+            h2 = hist + [op]
+            if len(h2) == 1:
+                count[0] += 1
+                if count[0] % NSHARD != idx:
+                    continue
+            ok, m2 = hist_run(h2, part)
+            part.count("cases:histories")
+            part.nontriv(("history", repr(h2)))
+            part.outcome(("history", tuple(sorted(m2.items())), ok))
+            if ok:
+                rec(h2, m2)
+
+    rec([], dict(H_INIT))
+    return part
+
+
 def shard(item):
+    if item[0] == "history":
+        return shard_history(item[1:])
     return shard_small(item[1:]) if item[0] == "small" else shard_sweep(item[1])
 
 
@@ -650,7 +747,10 @@ def run(ctx):
         "chain,star,clique,ring,ladder,binary tree,ternary sliding-window chain,rich chain (unary+duplicate+ternary),forest for "
         f"every size 1..{60 if ctx.quick else 100}, and long instances up to {max(c['n'] for c in sweeps)} variables "
         "(chains: 100,200,300,400,500,700,1000,1500,2000,3000..., default recursion limit). Each result is judged by a validator "
-        "built on index scopes only, itself checked on each case against a reference iterative DFS. Non-trivial = cyclic primal "
+        "built on index scopes only, itself checked on each case against a reference iterative DFS. Histories: ONE DCOP object (4 variables, "
+        "chain of 3 constraints) is changed through its public API - a constraint replaced under the same name by any pair / two triple "
+        "scopes, added, or deleted - and the pseudo-tree re-built and judged after every step: every sequence of <= 2 (thorough 3) changes. "
+        "Non-trivial = cyclic primal "
         "graph (a back edge is needed), or two constraints overlapping on >=2 variables, or >=2 components with an edge, or "
         "more than 50 variables."
     )
@@ -664,10 +764,19 @@ def run(ctx):
     big = [("sweep", c) for c in sweeps if c["n"] > 100]
     small = [("sweep", c) for c in sweeps if c["n"] <= 100]
     big.sort(key=lambda it: -it[1]["n"])
+    items += [("history", 2 if ctx.quick else 3, idx) for idx in range(NSHARD)]
     ctx.pmap(shard, big + ctx.rotate(items + small))
 
 
 def replay(case):
+    if "history" in case:
+        part = Part()
+        hist = [tuple(tuple(x) if isinstance(x, list) else x for x in o) for o in case["history"]]
+        ok, model = hist_run(hist, part)
+        print("final constraints:", model, "ok" if ok else "MISMATCH")
+        for v in part.violations:
+            print(v["key"], "::", v["what"][:600])
+        return bool(part.violations)
     part = Part()
     print("case:", describe(case) if "family" in case or case["n"] <= 7 else case.get("family"))
     call = prepare(case)
